@@ -210,7 +210,7 @@ def main():
     P = PROPS[prop]
     ev_path = a.evidence or os.path.join(VERIF, 'evidence', prop + '.json')
     os.makedirs(os.path.dirname(ev_path), exist_ok=True)
-    timeout = 10 if tier == 'quick' else 60
+    timeout = 20 if tier == 'quick' else 60      # per stage; almost every obligation is decided in the 3 s first stage
     lines = []
     status = 0
     try:
